@@ -171,6 +171,94 @@ Definition from_string (s : bytes) : option epoch :=
                 else Some (mkEpoch (Some [n]) (Some [n]))
     end.
 
+(* ------------------------------------------------------------------ the structured (JSON object) form
+   encoding/json itself is not modelled; this is a reader for exactly the byte language that json.Marshal produces for
+   structuredEpoch ({"read":<list>,"write":<list>} with <list> = null | [n,n,...], no white space), followed by
+   Epoch.fromStructured line by line. Inputs outside that language are answered None and are NOT compared with Go. *)
+Fixpoint strip_prefix (p s : bytes) : option bytes :=
+  match p with
+  | [] => Some s
+  | x :: p' => match s with y :: s' => if x =? y then strip_prefix p' s' else None | [] => None end
+  end.
+
+Fixpoint split_on (c : N) (s : bytes) : list bytes :=
+  match s with
+  | [] => [[]]
+  | x :: r => if x =? c then [] :: split_on c r
+              else match split_on c r with h :: t => (x :: h) :: t | [] => [[x]] end
+  end.
+
+Fixpoint map_opt {A B : Type} (f : A -> option B) (l : list A) : option (list B) :=
+  match l with
+  | [] => Some []
+  | x :: r => match f x, map_opt f r with Some y, Some ys => Some (y :: ys) | _, _ => None end
+  end.
+
+Definition null_b : bytes := [110; 117; 108; 108].
+Definition read_key : bytes := [123; 34; 114; 101; 97; 100; 34; 58].                 (* {"read": *)
+Definition write_key : bytes := [44; 34; 119; 114; 105; 116; 101; 34; 58].          (* ,"write": *)
+
+(* one <list> token and what follows it *)
+Definition parse_json_list (s : bytes) : option (option (list N) * bytes) :=
+  match strip_prefix null_b s with
+  | Some rest => Some (None, rest)
+  | None =>
+      match s with
+      | 91 :: t =>
+          let (inner, rest) := span (fun c => negb (c =? 93)) t in
+          match rest with
+          | 93 :: rest' =>
+              match (if is_nil_b inner then Some [] else map_opt parse_u32 (split_on 44 inner)) with
+              | Some l => Some (Some l, rest')
+              | None => None
+              end
+          | _ => None
+          end
+      | _ => None
+      end
+  end.
+
+Definition parse_struct (s : bytes) : option (option (list N) * option (list N)) :=
+  match strip_prefix read_key s with
+  | None => None
+  | Some s1 =>
+      match parse_json_list s1 with
+      | None => None
+      | Some (r, s2) =>
+          match strip_prefix write_key s2 with
+          | None => None
+          | Some s3 =>
+              match parse_json_list s3 with
+              | None => None
+              | Some (w, s4) => if beq s4 [125] then Some (r, w) else None
+              end
+          end
+      end
+  end.
+
+Definition last1 (l : list N) : list N := match rev l with x :: _ => [x] | [] => [] end.
+
+(* Epoch.fromStructured: defaults for missing lists, explicitly empty lists are an error, then Validate *)
+Definition from_structured (r w : option (list N)) : option epoch :=
+  let w1 := match r, w with None, None => Some [0] | _, _ => w end in
+  match (match r with None => Some w1 | Some [] => None | Some _ => Some r end) with
+  | None => None
+  | Some r1 =>
+      match (match w1 with None => Some (Some (last1 (lst r1))) | Some [] => None | Some _ => Some w1 end) with
+      | None => None
+      | Some w2 => let p := mkEpoch r1 w2 in if validate p =? 0 then Some p else None
+      end
+  end.
+
+(* Epoch.UnmarshalJSON restricted to what MarshalJSON / String print: a JSON string goes through fromString, an object
+   through fromStructured *)
+Definition epoch_unmarshal_json (d : bytes) : option epoch :=
+  match d with
+  | 34 :: _ => match unquote d with Some mid => from_string mid | None => None end
+  | 123 :: _ => match parse_struct d with Some (r, w) => from_structured r w | None => None end
+  | _ => None
+  end.
+
 (* ------------------------------------------------------------------ correspondence / monitor interface *)
 Definition oz_eqb (a b : option Z) : bool :=
   match a, b with Some x, Some y => (x =? y)%Z | None, None => true | _, _ => false end.
@@ -195,9 +283,10 @@ Definition mismatch (c : case) : bool :=
       || negb (oz_eqb (rev_unmarshal_yaml str) yaml_back)
   | CRevStr s parsed json_parsed =>
       negb (oz_eqb (parse_revision s) parsed) || negb (oz_eqb (rev_unmarshal_json s) json_parsed)
-  | CEpoch e o valid str _ js _ ro rs =>
+  | CEpoch e o valid str _ js js_back ro rs =>
       negb (Bool.eqb (validate e =? 0) valid) || negb (beq (epoch_string e) str)
       || negb (beq (epoch_marshal_json e) js) || negb (Bool.eqb (can_read e o) ro) || negb (Bool.eqb (can_read e e) rs)
+      || (valid && negb (oep_eqb (epoch_unmarshal_json js) js_back))
   | CEpochStr s res => negb (oep_eqb (from_string s) res)
   end.
 
